@@ -39,8 +39,8 @@ Write FOUR independent BENIGN changes to the library source under /tmp/wt/B-{are
       - different timing of internal garbage collection of expired tracks where the statement says it is unobservable;
       - different (but valid) internal capacity / buffering choices, different error message texts.
   * must NOT change anything a statement pins down (ids of simple trackers for the same history, epochs, lengths, which detections are grouped, thresholds and their >= / > sense, values beyond rounding noise of ~1e-6 relative, exactly-once delivery, no deadlock).
-Earlier contributors already wrote benign changes of these kinds - yours must be DIFFERENT in site and kind: reply/dispatch order of the shard workers, sleeps between critical sections, sorted results, shared job queue for the voting threads, partial-snapshot rollback, reworded errors, `P - K^T(HP)` covariance update, polygon vertex start corner, f64 accumulation in distances, exact-tie breaking in NMS / Hungarian layout / gallery eviction, garbage collection timing, `hypot`/f64 intermediates in radius / IoU, Python lists sorted by id, polling `get()`.
-Ideas for new kinds: correct chunking / streaming of results in several messages with matching bookkeeping on the consumer side; extra worker threads or a thread pool used correctly; lazily versus eagerly computed derived data (vertex caches filled and invalidated correctly); a different but correct assignment solver path for tiny problems; bookkeeping moved between structs without changing behaviour; defensive copies; capacity pre-allocation; replacing recursion/iteration styles; replacing `HashMap` by `BTreeMap` (or vice versa) where order is not promised; different internal epoch representation with identical observable epochs; correct early exits that skip provably irrelevant work; float expressions rearranged within ~1e-7 relative.
+Earlier contributors already wrote benign changes of these kinds - yours must be DIFFERENT in site and kind: reply/dispatch order of the shard workers, sleeps between critical sections, sorted results, shared job queue for the voting threads, partial-snapshot rollback, reworded errors, `P - K^T(HP)` covariance update, polygon vertex start corner, f64 accumulation in distances, exact-tie breaking in NMS / Hungarian layout / gallery eviction, garbage collection timing, `hypot`/f64 intermediates in radius / IoU, Python lists sorted by id, polling `get()`. A second group wrote: distance replies streamed in chunks with a terminator message, shard tracks evaluated on the rayon pool, early exits in `merge_owned`, `Track::distances` with swapped loops, a solver fast path for uncontested assignments, an unbounded result channel, lazily allocated batch ids, block-wise covariance prediction, a closed-form intersection for unrotated pairs, NMS overlap rows precomputed in parallel, an iterator-style clipper, another exact area formula in the Python binding, a chunked thread-scoped vector filter, deterministic temporary candidate ids, best-fit weight as `votes*max - sum(d)`, own-area clipping that skips provably irrelevant neighbours, arrival-order galleries with eviction by selection.
+Ideas for new kinds (correct versions of typical performance work are especially welcome): a cache or memo whose key covers EVERYTHING the value depends on and that is invalidated on every path; squared-quantity comparisons that are exactly equivalent; pre-filters that are provably exact (e.g. separating-axis tests that consider the rotation); per-thread id blocks that can never overlap; reuse of scratch buffers that are fully cleared; a group-by-key implemented with a sort or a BTreeMap instead of a HashMap; wide-id-safe integer arithmetic; waits skipped only when provably unnecessary. Further ideas: correct chunking / streaming of results in several messages with matching bookkeeping on the consumer side; extra worker threads or a thread pool used correctly; lazily versus eagerly computed derived data (vertex caches filled and invalidated correctly); a different but correct assignment solver path for tiny problems; bookkeeping moved between structs without changing behaviour; defensive copies; capacity pre-allocation; replacing recursion/iteration styles; replacing `HashMap` by `BTreeMap` (or vice versa) where order is not promised; different internal epoch representation with identical observable epochs; correct early exits that skip provably irrelevant work; float expressions rearranged within ~1e-7 relative.
 Each change should be 5-40 changed lines and look like something a maintainer could plausibly commit. The four changes must be of four different kinds and touch different files where possible.
 
 For each change i in 1..4 deliver in /tmp/wt/B-{area}/out/ (create it):
